@@ -306,6 +306,12 @@ theorem kwAllOf_single (t : NodeId) (h : n.allOf = some [t]) : Spec.kwAllOf sub 
   have : Spec.kwAllOf sub n j = seqConj [sub t j] := by simp [Spec.kwAllOf, h, seqConj]
   rw [this]; simp
 
+/-- two branches: the conjunction of their outcomes -/
+theorem kwAllOf_pair (t1 t2 : NodeId) (h : n.allOf = some [t1, t2]) :
+    Spec.kwAllOf sub n j = oconj2 (sub t1 j) (sub t2 j) := by
+  have : Spec.kwAllOf sub n j = seqConj [sub t1 j, sub t2 j] := by simp [Spec.kwAllOf, h, seqConj]
+  rw [this]; simp
+
 theorem kwAllOf_nil (h : n.allOf = some []) : Spec.kwAllOf sub n j = some (some {}) := by
   simp [Spec.kwAllOf, h, Spec.sequence, conj_nil]
 
